@@ -79,6 +79,12 @@ PROPS["C05"] = {
     "trusted_base": COMMON_TB + ["Json/Grammar.v is the specification of RFC 8259 + the 10000 nesting limit of encoding/json, tied to encoding/json.Valid by the oracle-model correspondence",
                                  "the consumers other than Valid (RawMessage encode/decode, unknown-field skip, array surplus, MarshalJSON output, Decoder framing) call the proved recogniser parseValue; their own glue is covered by correspondence with encoding/json only"],
     "assumptions": ["inputs shorter than 2^62 bytes"],
+    "claim": {
+        "text": "Theorems (Properties/C05.v) about the Gallina translation of json.Valid / parseValue / parseString / parseNumber / internalParseFlags (regenerated from the source on every run): for EVERY byte string Valid equals the RFC 8259 recogniser (Json/Grammar.v) "
+                "and hence encoding/json.Valid up to the 10000-container limit; parseValue - the recogniser all syntax-only consumers call - accepts exactly the grammar and consumes exactly the value, including the 8/16-byte quote search (lane proof) and the whole-input flag shortcuts. "
+                "The glue of the other consumers (RawMessage, MarshalJSON output, unknown fields, array surplus, Decoder framing) is compared with encoding/json on the exhaustive <=3-symbol family and generated documents.",
+        "note": "Trusted: Coq kernel, translator, grammar transcription (tied to encoding/json.Valid by correspondence on ~400k strings per run), extraction+driver, harness. Nesting beyond 10000 (accepted by the package, rejected by encoding/json) and stack exhaustion belong to C06.",
+    },
 }
 
 PROPS["C16"] = {
